@@ -220,13 +220,13 @@ pub proof fn lemma_gauss_dev(d: Seq<f64>, y: Seq<f64>, mu: Seq<f64>, k: int)
     decreases k
 { if k > 0 { lemma_gauss_dev(d, y, mu, k - 1); lemma_sq_nonneg(rv(d[k - 1])); } }
 '''
-DEV_LOOP = lambda fam: {'invariant': ['n == y@.len() && n == mu@.len()', '*self is %s' % fam, '(*self is Gamma || *self is Exponential) ==> forall|i: int| 0 <= i < mu@.len() ==> rv(#[trigger] mu@[i]) != 0real', 'C06.deviance.partial:: rv(acc_) == dev_sum(*self, y@, mu@, t_ as int)']}
+DEV_DOM = '((*self is Gamma || *self is Exponential) ==> forall|i: int| 0 <= i < mu@.len() ==> rv(#[trigger] mu@[i]) != 0real)'
+DEV_LOOP = lambda fam: {'invariant': ['n == y@.len() && n == mu@.len()', '*self is %s' % fam, 'C06.deviance.partial:: ' + DEV_DOM + ' ==> rv(acc_) == dev_sum(*self, y@, mu@, t_ as int)']}
 POIS_LOOP = lambda fam: {'invariant': ['n == y@.len() && n == mu@.len()', '*self is %s' % fam, 'ylogy@.len() == n', 'forall|q: int| 0 <= q < n ==> rv(#[trigger] ylogy@[q]) == r_ylogy(rv(y@[q]))',
                                        'C06.deviance.partial:: rv(acc_) == dev_sum(*self, y@, mu@, t_ as int)']}
 YL = {'params': 'x: &f64', 'ret': 'o: f64', 'ensures': ['rv(o) == r_ylogy(rv(*x))']}
 deviance = Fn(FAM + '{impl ExponentialFamily}::deviance', ret='r', level='L1', valid='y@.len() == mu@.len()', panics={1: 'REJECT'},
-              requires=['C06.deviance.domain:: (*self is Gamma || *self is Exponential) ==> forall|i: int| 0 <= i < mu@.len() ==> rv(#[trigger] mu@[i]) != 0real'],
-              ensures=['C06.deviance.valid:: y@.len() == mu@.len()', 'C06.deviance.family:: rv(r) == dev_factor(*self) * dev_sum(*self, y@, mu@, y@.len() as int)'],
+              ensures=['C06.deviance.valid:: y@.len() == mu@.len()', 'C06.deviance.family:: ' + DEV_DOM + ' ==> rv(r) == dev_factor(*self) * dev_sum(*self, y@, mu@, y@.len() as int)'],
               rewrites=[('norm(&vsub(y, mu)).powi(2)', '({ let d_ = vsub(y, mu); let nr_ = norm(&d_); proof { lemma_gauss_dev(d_@, y@, mu@, n as int); ax_sqrt(dsum(d_@, d_@, n as int)); } nr_.powi(2) })', 'R31'),
                         ('(0..n).map(|i| y[i] * mu[i].ln() + (1. - y[i]) * (1. - mu[i]).ln()).sum::<f64>() * -2.',
                          '({ let mut acc_ = 0.; for t_ in 0..n { acc_ = acc_ + (y[t_] * mu[t_].ln() + (1. - y[t_]) * (1. - mu[t_]).ln()); } acc_ }) * -2.', 'R37: map-sum as its defining loop'),
